@@ -149,3 +149,516 @@ def extract_graphs(shapes, workdir, tag="g", timeout=1500):
     if n != r["transitions"] - r["init"] or r["init"] != len(shapes):
         raise tlc.TlcError(f"edge print count {n} != generated {r['transitions']} - initial {r['init']}")
     return per, r
+
+
+def _save_graph(path, edges):
+    with open(path, "w") as fh:
+        json.dump(edges, fh, separators=(",", ":"))
+
+
+def _load_graph(sc):
+    p = sc.get("graph")
+    if p and os.path.exists(p):
+        with open(p) as fh:
+            return json.load(fh)
+    # replay of a stored scenario: let TLC regenerate the graph of this one shape
+    d = tempfile.mkdtemp(dir=_scratch())
+    try:
+        per, _ = extract_graphs([sc["shape"]], d)
+        return per[0]
+    finally:
+        shutil.rmtree(d, ignore_errors=True)
+
+
+def _scratch():
+    d = os.path.join(os.environ.get("WV_SCRATCH", "/var/tmp/whverif"), "work")
+    os.makedirs(d, exist_ok=True)
+    return d
+
+
+# ---------------------------------------------------------------------------------------------
+# shapes and numbers
+def rand_shape(rng, kind, m, nreads):
+    if kind == "single":
+        nind, trios = 1, []
+    elif kind == "unrelated":
+        nind, trios = 2, []
+    elif kind == "trio":
+        nind, trios = 3, [rng.choice([[1, 2, 3], [1, 2, 3], [3, 2, 1], [2, 3, 1]])]
+    else:
+        nind, trios = 4, [[1, 2, 3], [1, 2, 4]]
+    reads = []
+    for _ in range(nreads):
+        first = rng.randint(1, m - 1)
+        last = rng.randint(first + 1, m)
+        cols = [first] + [c for c in range(first + 1, last) if rng.random() < 0.6] + [last]
+        reads.append({"ind": rng.randint(1, nind), "cells": [[c, rng.randint(0, 1)] for c in cols]})
+    reads.sort(key=lambda r: r["cells"][0][0])
+    return {"nInd": nind, "trios": trios, "m": m, "reads": reads}
+
+
+QUALS = [0, 1, 2, 5, 10, 10, 20, 20, 30, 40, 60, 93, 255, 256, 300]
+PRIOR_ATOMS = [1, 1, 2, 3, 5, 10, 0.5, 0.1, 0.01, 1e-6]
+RCS = [0, 1, 3, 10, 10, 40, 100]
+
+
+def rand_numbers(rng, shape, style):
+    """One numeric instance of a shape: qualities per cell, prior triple per (individual, column),
+    recombination cost per column."""
+    m, n = shape["m"], shape["nInd"]
+    qual = [[rng.choice(QUALS) if style != "uniform" else 10 for _ in r["cells"]] for r in shape["reads"]]
+    prior = []
+    for i in range(n):
+        row = []
+        for c in range(m):
+            if style == "uniform":
+                t = [1 / 3, 1 / 3, 1 / 3]
+            else:
+                t = [float(rng.choice(PRIOR_ATOMS)) for _ in range(3)]
+                if style == "normalised":
+                    s = sum(t)
+                    t = [x / s for x in t]
+                if style == "zero" and n == 1 and rng.random() < 0.5:
+                    t[rng.randrange(3)] = 0.0
+            row.append(t)
+        prior.append(row)
+    rc = [rng.choice(RCS) for _ in range(m)]
+    return {"qual": qual, "prior": prior, "rc": rc}
+
+
+def run_core(shape, nums):
+    """the real GenotypeDPTable on one numeric instance: {(i, col): [L0, L1, L2]} (floats)"""
+    from whatshap.core import (ReadSet, Read, Pedigree, NumericSampleIds, GenotypeDPTable, Genotype,
+                               PhredGenotypeLikelihoods)
+    ids = NumericSampleIds()
+    ped = Pedigree(ids)
+    m = shape["m"]
+    for i in range(shape["nInd"]):
+        ped.add_individual(f"ind{i+1}", [Genotype([]) for _ in range(m)],
+                           [PhredGenotypeLikelihoods([float(x) for x in t]) for t in nums["prior"][i]])
+    for f, mo, c in shape["trios"]:
+        ped.add_relationship(f"ind{f}", f"ind{mo}", f"ind{c}")
+    rs = ReadSet()
+    for k, rd in enumerate(shape["reads"]):
+        x = Read(f"r{k}", 50, 0, ids[f"ind{rd['ind']}"])
+        for (c, a), q in zip(rd["cells"], nums["qual"][k]):
+            x.add_variant(c * 10, a, q)
+        rs.add(x)
+    dp = GenotypeDPTable(ids, rs, list(nums["rc"]), ped, [c * 10 for c in range(1, m + 1)])
+    gts = [Genotype([0, 0]), Genotype([0, 1]), Genotype([1, 1])]
+    out = {}
+    for i in range(shape["nInd"]):
+        for c in range(m):
+            l = dp.get_genotype_likelihoods(f"ind{i+1}", c)
+            out[(i + 1, c + 1)] = [float(l[g]) for g in gts]
+    return out
+
+
+POST_TOL = 1000        # 1e-9 relative, in units of 1e-12
+ERR_CAP = 2 * 10 ** 9
+
+
+def _posterior_event(shape, graph, nums):
+    ref, _z = hmm_posterior(graph, shape, nums)
+    got = run_core(shape, nums)
+    entries = []
+    for (i, c), triple in sorted(ref.items()):
+        for g in range(3):
+            r = triple[g]
+            v = got[(i, c)][g]
+            if math.isnan(v) or math.isinf(v):
+                err = ERR_CAP
+            else:
+                d = abs(Decimal(v) - r)
+                rel = d / r if r != 0 else d
+                err = int(min(Decimal(ERR_CAP), (rel * Decimal(10) ** 12).to_integral_value(rounding="ROUND_CEILING")))
+            entries.append({"i": i, "c": c, "g": g, "ok": err <= POST_TOL, "err": err})
+    return {"ev": "Posterior", "nInd": shape["nInd"], "m": shape["m"], "nreads": len(shape["reads"]),
+            "nedges": len(graph), "tol": POST_TOL, "entries": entries}
+
+
+# =============================================================================================
+# (b) decision rule: direct calls and whole `whatshap genotype` runs
+# =============================================================================================
+def _determine_events(sc):
+    from whatshap.cli.genotype import determine_genotype
+    from whatshap.core import PhredGenotypeLikelihoods
+    g = sc["G"]
+    evs = []
+    for x, y, z, thr in sc["pairs"]:
+        res = determine_genotype(PhredGenotypeLikelihoods([x / g, y / g, z / g]), thr / g)
+        gt = -1 if res.is_none() else int(sum(res.as_vector()))
+        evs.append({"ev": "Determine", "G": g, "x": x, "y": y, "z": z, "thr": thr, "gt": gt})
+    return evs
+
+
+QS = [0, 0, 0, 1, 2, 3, 6, 10, 13, 20, 30, 50]
+
+
+def rand_cli(rng, idx):
+    ns = rng.choice([1, 1, 2, 3, 3, 3])
+    trio = ns == 3 and rng.random() < 0.6
+    nop = rng.random() < 0.4
+    sc = {"kind": "cli", "seed": rng.randrange(10 ** 9), "nsamples": ns, "trio": trio, "q": rng.choice(QS),
+          "nopriors": nop, "constant": 0.0 if nop or rng.random() < 0.6 else rng.choice([0.01, 0.1, 1.0]),
+          "prioroutput": (not nop) and rng.random() < 0.6,
+          "nchrom": rng.choice([1, 1, 2]), "nvars": rng.randint(1, 6), "nreads": rng.choice([1, 2, 4, 6, 10, 20]),
+          "err": rng.choice([0.0, 0.0, 0.05, 0.2]), "maxcov": rng.choice([15, 15, 6, 3]),
+          "multiallelic": rng.random() < 0.25, "recombrate": rng.choice([1.26, 1.26, 100.0, 1e6])}
+    sc["empty_sample"] = ns >= 2 and rng.random() < 0.2      # the last sample has no reads at all
+    sc["select_chrom"] = sc["nchrom"] == 2 and rng.random() < 0.5
+    sc["select_sample"] = ns >= 2 and not trio and rng.random() < 0.4
+    return sc
+
+
+def _gt_code(s):
+    s = s.strip()
+    if s in (".", "./."):
+        return -1
+    if "/" in s:
+        al = s.split("/")
+        if len(al) == 2 and all(a in ("0", "1") for a in al):
+            return int(al[0]) + int(al[1])
+    return -2
+
+
+def _call_event(call, q, which):
+    e = {"ev": "Call", "file": which, "q": q, "L": [], "gt": _gt_code(call.get("GT", "?")), "gq": -2, "mp": 0,
+         "masszero": False}
+    gq = call.get("GQ", "?")
+    if gq == ".":
+        e["gq"] = -1
+    elif re.fullmatch(r"\d+", gq):
+        e["gq"] = min(int(gq), 2 * 10 ** 9)
+    try:
+        gl = [float(x) for x in call.get("GL", "").split(",")]
+    except ValueError:
+        gl = []
+    if len(gl) == 3 and all(x <= 0.001 for x in gl):
+        probs = [Decimal(0) if x <= -1000 else Decimal(10) ** Decimal(repr(x)) for x in gl]
+        e["L"] = [int((p * 10 ** 6).to_integral_value(rounding="ROUND_HALF_EVEN")) for p in probs]
+        if e["gt"] in (0, 1, 2):
+            mass = sum((p for i, p in enumerate(probs) if i != e["gt"]), Decimal(0))
+            if mass <= 0:
+                e["masszero"] = True
+            else:
+                e["mp"] = int((Decimal(-10000) * mass.log10()).to_integral_value(rounding="ROUND_HALF_EVEN"))
+    return e
+
+
+def _cli_events(sc):
+    import logging
+    import random
+    from .. import world
+    from whatshap.cli.genotype import run_genotype
+    rng = random.Random(sc["seed"])
+    d = tempfile.mkdtemp(dir=_scratch(), prefix="c08-")
+    try:
+        length = 240
+        chroms = [f"chr{i+1}" for i in range(sc["nchrom"])]
+        ref = {c: world.random_reference(rng, length) for c in chroms}
+        samples = ["A", "B", "C"][:sc["nsamples"]]
+        recs, variants = [], {}
+        for ch in chroms:
+            ps = sorted(rng.sample(range(12, length - 12, 6), sc["nvars"]))
+            variants[ch] = [world.make_variant(rng, ref[ch], p, "snv") for p in ps]
+            for j, v in enumerate(variants[ch]):
+                alt = v.alt
+                if sc["multiallelic"] and j == 0:
+                    alt = v.alt + "," + rng.choice([b for b in "ACGT" if b not in (v.ref, v.alt)])
+                recs.append({"chrom": ch, "pos": v.pos + 1, "id": f"v{v.pos}", "ref": v.ref, "alt": alt,
+                             "qual": rng.choice(["30", ".", "7.5"]), "filter": rng.choice(["PASS", ".", "LowQual"]),
+                             "info": rng.choice([".", "NOTE=x", "AC=1;FLAGGED"]), "fmt": ["GT", "DP", "GQ"],
+                             "calls": [[rng.choice(["0/1", "1|0", "./.", "1/1"]), str(rng.randint(1, 30)), "9"] for _ in samples]})
+        world.write_vcf(os.path.join(d, "in.vcf"), samples, [(c, length) for c in chroms], recs)
+        reads, n = [], 0
+        haps = {}
+        for ci, ch in enumerate(chroms):
+            for s in samples:
+                if sc["trio"] and s == "C":
+                    hp = [haps[(ch, "A")][rng.randint(0, 1)], haps[(ch, "B")][rng.randint(0, 1)]]
+                else:
+                    hp = [[rng.randint(0, 1) for _ in variants[ch]] for _ in range(2)]
+                haps[(ch, s)] = hp
+                for _ in range(0 if sc["empty_sample"] and s == samples[-1] else sc["nreads"]):
+                    h = rng.randint(0, 1)
+                    al = [a if rng.random() >= sc["err"] else 1 - a for a in hp[h]]
+                    hap = world.Haplotype(ref[ch], variants[ch], al)
+                    a = rng.randint(0, length - 40)
+                    b = min(length, a + rng.randint(30, 200))
+                    pos0, cig, seq = hap.read(a, b)
+                    qual = "".join(chr(33 + rng.choice([2, 10, 20, 30, 40])) for _ in seq)
+                    reads.append({"name": f"r{n}", "ref": ci, "pos": pos0, "cigar": world.cigar_str(cig), "seq": seq,
+                                  "qual": qual, "rg": s, "mapq": 60})
+                    n += 1
+        world.write_bam(os.path.join(d, "in.bam"), [(c, length) for c in chroms], reads,
+                        read_groups=[{"ID": s, "SM": s} for s in samples])
+        kw = {}
+        if sc["trio"]:
+            kw["ped"] = world.write_ped(os.path.join(d, "t.ped"), [("A", "B", "C")])
+            kw["recombrate"] = sc["recombrate"]
+        sel_chroms = [chroms[-1]] if sc["select_chrom"] else chroms
+        sel_samples = [samples[-1]] if sc["select_sample"] else samples
+        if sc["select_chrom"]:
+            kw["chromosomes"] = sel_chroms
+        if sc["select_sample"]:
+            kw["samples"] = sel_samples
+        outs = [("main", os.path.join(d, "out.vcf"))]
+        if sc["prioroutput"]:
+            kw["prioroutput"] = os.path.join(d, "prior.vcf")
+            outs.append(("prior", kw["prioroutput"]))
+        logging.disable(logging.CRITICAL)
+        exc = ""
+        try:
+            run_genotype([os.path.join(d, "in.bam")], os.path.join(d, "in.vcf"), output=outs[0][1],
+                         gt_qual_threshold=sc["q"], nopriors=sc["nopriors"], constant=sc["constant"],
+                         max_coverage=sc["maxcov"], write_command_line_header=False, **kw)
+        except Exception as e:  # the property promises an output for every input of the domain
+            exc = type(e).__name__ + ": " + str(e)[:200]
+        finally:
+            logging.disable(logging.NOTSET)
+        evs = []
+        intern = {}
+
+        def iid(s):
+            return intern.setdefault(s, len(intern) + 1)
+
+        _, in_samples, in_recs = world.read_vcf_text(os.path.join(d, "in.vcf"))
+
+        def ident(r):
+            return iid("|".join([r["chrom"], str(r["pos"]), r["id"], r["ref"], r["alt"], r["filter"], r["info"]]))
+
+        def whole(r):
+            return iid(json.dumps([r["chrom"], r["pos"], r["id"], r["ref"], r["alt"], r["qual"], r["filter"], r["info"],
+                                   r["fmt"], r["calls"]], sort_keys=True))
+        for which, path in outs:
+            e = {"ev": "Run", "file": which, "exc": exc, "in_records": [ident(r) for r in in_recs],
+                 "in_samples": [iid("S:" + s) for s in in_samples],
+                 "in_unselected": [whole(r) for r in in_recs if r["chrom"] not in sel_chroms],
+                 "out_records": [], "out_samples": [], "out_unselected": []}
+            calls = []
+            if not exc:
+                _, out_samples, out_recs = world.read_vcf_text(path)
+                e["out_records"] = [ident(r) for r in out_recs]
+                e["out_samples"] = [iid("S:" + s) for s in out_samples]
+                e["out_unselected"] = [whole(r) for r in out_recs if r["chrom"] not in sel_chroms]
+                for r in out_recs:
+                    if r["chrom"] not in sel_chroms or "," in r["alt"] or r["alt"] == ".":
+                        continue
+                    for s, call in zip(out_samples, r["calls"]):
+                        if s in sel_samples:
+                            calls.append(_call_event(call, sc["q"], which))
+            evs.append(e)
+            evs.extend(calls)
+        return evs
+    finally:
+        shutil.rmtree(d, ignore_errors=True)
+
+
+# =============================================================================================
+# module contract
+# =============================================================================================
+RULE = ("three scenario kinds. (hmm) one instance SHAPE of the genotyping HMM - TLC-enumerated tiny shapes (Gen_C08Shapes: every "
+        "sorted sequence of <= 2 reads over 3 columns for one individual / over 2 columns for a trio) plus seeded random shapes "
+        "(single <= 4 reads x <= 10 columns, unrelated pair, trio in three member orders <= 4 columns, quartet; blanks, uncovered "
+        "columns, nested reads) - for which TLC prints the state graph of GenoHMM; each of ~20 random numeric draws (qualities incl. "
+        "0 and >= 256, priors normalised/unnormalised/with a zero, recombination costs 0-100) is run through the real GenotypeDPTable "
+        "and compared with the sum-product over TLC's graph; non-trivial = >= 2 reads share a column. (determine) a batch of "
+        "TLC-enumerated (likelihood triple, threshold) pairs on the grid 1/20 given to the real determine_genotype. (cli) one seeded "
+        "world (1-3 samples, optional trio PED, 1-2 chromosomes, 1-6 SNVs, 0-20 reads per sample with errors) run through "
+        "`whatshap genotype` in-process with a phred threshold from {0,1,2,3,6,10,13,20,30,50}, priors / --no-priors / --constant, "
+        "chromosome and sample selection, prior output; non-trivial = the outputs contain both a called and an uncalled genotype")
+ASSUMPTIONS = [
+    "TLC explores GenoHMM's state graph completely and prints every (state, successor) pair once (checked: printed edges = generated states - initial states)",
+    "the posterior clause is decided by TLC's graph + a generic 40-line sum-product in 60-digit decimal arithmetic in the driver (TLC has no reals); TLC judges the logged scaled deviation",
+    "domain of GenotypeDPTable: reads sorted, every read has >= 2 cells (the backward column iterator asserts first < last column), priors not all zero",
+    "the trio/quartet labelling of PedMEC.tla (shared with C01); depth-1 pedigrees",
+    "GL is read back from the file with 6 significant digits: calls are judged up to 3 ppm, GQ up to the rounding boundary this can move",
+    "a missing GT is accepted as '.' or './.'",
+]
+
+
+def design_mc(ctx):
+    q = ctx.quick
+    out = []
+    cfg = tlc.write_cfg(os.path.join(ctx.workdir, "mc_hmm.cfg"), spec="Spec", consts={"PrintEdges": "FALSE"},
+                        subst={"Shapes": "MCShapes"},
+                        invariants=["TypeOK", "BipOnActiveReads", "NoDeadEnd", "RowIsBinomial", "MultPartition",
+                                    "TablesAreDefinitions", "EmitCoversColumn"],
+                        properties=["SidesAreCarried", "SidesKeptInsideColumn", "TablesConstant"])
+    r = tlc.model_check("MC_GenoHMM", cfg=cfg, workers=8, timeout=1500)
+    r["what"] = ("GenoHMM state graph of 5 shapes (single with blank/uncovered column, unrelated pair, trio in two orders, quartet): "
+                 "no dead end, sides carried across shared reads, binomial rows, multiplicities partition the assignments")
+    out.append(r)
+    cfg = tlc.write_cfg(os.path.join(ctx.workdir, "mc_call.cfg"), spec="Spec",
+                        consts={"G": 20 if q else 40, "N": 5 if q else 6, "MaxEps": 2, "MaxMp": 60000 if q else 200000, "MpStep": 50},
+                        invariants=["CallIsUnique", "NoCallIffMaxLeThrOrTie", "CallIsArgMax", "ThresholdMonotone", "DefaultCallsAll",
+                                    "GridIsDistribution", "CallWithinIsBoxImage", "ExactIsZeroBox", "TableOK", "GQRounds",
+                                    "GQMonotone", "GQRangeOK"])
+    r = tlc.model_check("MC_GenoCall", cfg=cfg, workers=8, timeout=1500)
+    r["what"] = ("GenoCall on every grid triple x threshold: call unique, no call iff max <= threshold or tie, threshold monotone, "
+                 "tolerant reading = image of the eps-box, GQ = nearest phred, monotone, capped")
+    out.append(r)
+    return out
+
+
+def _tlc_write(module, consts, outfile, timeout=1200):
+    cfgdir = os.path.dirname(outfile)
+    cfg = tlc.write_cfg(os.path.join(cfgdir, module + ".gen.cfg"), consts=consts)
+    rc, out, _ = tlc._java(["-config", cfg, "-workers", "1", "-metadir", tlc._metadir(), "-noGenerateSpecTE", module + ".tla"],
+                           env_extra={"OUT_FILE": outfile}, timeout=timeout, serial=True, xmx="4g")
+    if rc != 0:
+        raise tlc.TlcError(module + " failed:\n" + out[-2000:])
+    with open(outfile) as fh:
+        return [json.loads(x) for x in fh if x.strip()]
+
+
+def _shape_cost(s):
+    t = 4 ** len(s["trios"])
+    a = 2 ** (2 * (s["nInd"] - len(s["trios"])))
+    return s["m"] * t * a * (t + 2) * 2 ** min(len(s["reads"]), 4)
+
+
+def scenarios(ctx):
+    from concurrent.futures import ThreadPoolExecutor
+    q = ctx.quick
+    rng = ctx.rng
+    scs = []
+    # ---- (determine) TLC-enumerated (triple, threshold) pairs ----
+    pairs = _tlc_write("Gen_C08", {"G": 20}, os.path.join(ctx.workdir, "pairs.ndjson"))
+    pairs = sorted([p["x"], p["y"], p["z"], p["thr"]] for p in pairs)
+    ctx.notes["tlc_enumerated_triple_threshold_pairs"] = len(pairs)
+    for i in range(0, len(pairs), 250):
+        scs.append({"kind": "determine", "G": 20, "pairs": pairs[i:i + 250]})
+    # ---- (hmm) shapes: TLC-enumerated tiny space + seeded random ----
+    tiny = _tlc_write("Gen_C08Shapes", {"Sample": 12 if q else 1, "MaxReads": 2}, os.path.join(ctx.workdir, "shapes.ndjson"))
+    ctx.notes["tlc_enumerated_shapes"] = len(tiny)
+    shapes = [(s, 4 if q else 6) for s in tiny]
+    plan = ([("single", 2, 2), ("single", 3, 3), ("single", 4, 3), ("single", 5, 3), ("single", 5, 2), ("single", 4, 4),
+             ("single", 9, 3), ("unrelated", 3, 3), ("trio", 2, 3), ("trio", 3, 3), ("trio", 3, 2), ("trio", 4, 3),
+             ("quartet", 2, 2), ("single", 5, 0), ("trio", 2, 0)])
+    reps = 2 if q else 12
+    for rep in range(reps):
+        for kind, m, nr in plan:
+            if kind == "quartet" and rep % 2 == 1:
+                continue
+            shapes.append((rand_shape(rng, kind, m, nr), 10 if q else 20))
+    if not q:
+        for _ in range(6):
+            shapes.append((rand_shape(rng, "single", 10, 4), 20))
+            shapes.append((rand_shape(rng, "trio", 5, 3), 10))
+            shapes.append((rand_shape(rng, "quartet", 3, 3), 6))
+    # graphs: TLC explores GenoHMM for batches of shapes, several JVMs side by side
+    gdir = os.path.join(ctx.workdir, "graphs")
+    os.makedirs(gdir, exist_ok=True)
+    order = sorted(range(len(shapes)), key=lambda i: -_shape_cost(shapes[i][0]))
+    nb = 6
+    batches = [[] for _ in range(nb)]
+    load = [0] * nb
+    for i in order:
+        b = load.index(min(load))
+        batches[b].append(i)
+        load[b] += _shape_cost(shapes[i][0])
+    batches = [b for b in batches if b]
+
+    def job(bi):
+        b = batches[bi]
+        per, r = extract_graphs([shapes[i][0] for i in b], gdir, tag=str(bi))
+        for i, edges in zip(b, per):
+            _save_graph(os.path.join(gdir, f"g{i}.json"), edges)
+        return sum(len(e) for e in per), r["states"], r["wall_s"]
+    with ThreadPoolExecutor(max_workers=nb) as ex:
+        res = list(ex.map(job, range(len(batches))))
+    ctx.notes["hmm_graphs"] = {"shapes": len(shapes), "edges_printed_by_tlc": sum(r[0] for r in res),
+                               "states": sum(r[1] for r in res), "tlc_wall_s": round(max(r[2] for r in res), 1)}
+    styles = ["normalised", "raw", "uniform", "zero", "normalised", "raw"]
+    for i, (s, ndraw) in enumerate(shapes):
+        draws = [rand_numbers(rng, s, styles[j % len(styles)]) for j in range(ndraw)]
+        scs.append({"kind": "hmm", "shape": s, "draws": draws, "graph": os.path.join(gdir, f"g{i}.json")})
+    # ---- (cli) worlds ----
+    for i in range(60 if q else 600):
+        scs.append(rand_cli(rng, i))
+    return scs
+
+
+def drive(sc):
+    if sc["kind"] == "determine":
+        return _determine_events(sc)
+    if sc["kind"] == "cli":
+        return _cli_events(sc)
+    graph = _load_graph(sc)
+    return [_posterior_event(sc["shape"], graph, nums) for nums in sc["draws"]]
+
+
+def post(ctx, scs, per_tid):
+    """no extra events; evidence counters only"""
+    draws = worst = calls = called = 0
+    for evs in per_tid.values():
+        for e in evs:
+            if e.get("ev") == "Posterior":
+                draws += 1
+                worst = max([worst] + [x["err"] for x in e["entries"]])
+            elif e.get("ev") == "Call":
+                calls += 1
+                called += e["gt"] >= 0
+    ctx.notes["posterior_instances_compared"] = draws
+    ctx.notes["posterior_worst_relative_deviation_1e-12"] = worst
+    ctx.notes["vcf_calls_judged"] = {"total": calls, "called": called, "no_call": calls - called}
+    return []
+
+
+def nontrivial(sc, events):
+    if sc["kind"] == "determine":
+        return True
+    if sc["kind"] == "hmm":
+        cols = [c[0] for r in sc["shape"]["reads"] for c in r["cells"]]
+        return len(cols) != len(set(cols))
+    gts = [e["gt"] for e in events if e.get("ev") == "Call"]
+    return any(g >= 0 for g in gts) and any(g == -1 for g in gts)
+
+
+def signature(sc, events, clause):
+    if sc["kind"] == "hmm":
+        s = sc["shape"]
+        return f"hmm nInd={s['nInd']} trios={len(s['trios'])}"
+    if sc["kind"] == "determine":
+        return "determine_genotype"
+    files = sorted({e.get("file", "") for e in events if e.get("ev") in ("Call", "Run")})
+    return f"cli trio={sc['trio']} nopriors={sc['nopriors']} files={','.join(files)}"
+
+
+def selftest_corrupt(events):
+    done = set()
+    for e in events:
+        if e["ev"] == "Posterior" and "p" not in done and e["entries"]:
+            e["entries"][0]["err"] = POST_TOL + 1
+            done.add("p")
+        elif e["ev"] == "Determine" and "d" not in done and e["gt"] >= 0:
+            e["gt"] = (e["gt"] + 1) % 3
+            done.add("d")
+        elif e["ev"] == "Call" and "c" not in done and e["gt"] >= 0 and not e["masszero"]:
+            e["gq"] += 2
+            done.add("c")
+        elif e["ev"] == "Call" and "g" not in done and e["gt"] == -1 and e["L"] and max(e["L"]) > 600000 and e["q"] == 0:
+            e["gt"] = e["L"].index(max(e["L"]))
+            done.add("g")
+    return events
+
+
+MANIFEST = {
+    "text": "GenoHMM.tla describes the genotyping HMM structurally (hidden state = read bipartition, transmission value, allele "
+            "assignment; micro-steps Carry, Transmit, Assign, Emit with symbolic labels); TLC model-checks its design properties and, "
+            "for every instance shape of a run (TLC-enumerated tiny shapes and seeded random ones with blanks, trios in several "
+            "orders, a quartet, up to 10 columns so that sqrt-checkpointing is active), prints the complete state graph. The driver "
+            "substitutes ~20 random number sets per shape and sums over TLC's graph with a generic sum-product in 60-digit arithmetic; "
+            "the real GenotypeDPTable must agree to 1e-9 relative, which TLC judges on the recorded deviation. GenoCall.tla defines "
+            "the GT/GL/GQ rule on scaled integers; TLC model-checks it on every grid triple x threshold, enumerates triple/threshold "
+            "pairs that are fed to the real determine_genotype (exact judgement), and judges every genotyped call of the VCFs "
+            "written by in-process `whatshap genotype` runs on materialised worlds (GL sums to one, GT = unique maximum above the "
+            "phred threshold, GQ = phred of the other mass, records and samples preserved).",
+    "note": "trusted: TLC, GenoHMM.tla/GenoCall.tla as reading of the statement, the generic sum-product and the float-to-integer "
+            "conversions in the driver; TLC does no real arithmetic, so the numeric posterior is decided by TLC's graph plus the "
+            "driver's summation; beyond the enumerated bounds the evidence is sampling",
+    "technique": "TLA+ structural HMM spec explored by TLC (state graph) + generic sum-product; TLA+ decision-rule spec model-checked and "
+                 "used for TLC trace validation of recorded calls and CLI outputs",
+}
